@@ -73,7 +73,7 @@ fn main() {
 			continue;
 		}
 		// (1) default + small-period configuration: every candle sequence to a depth
-		let base = indicator_configs(Some(name), false);
+		let base = indicator_configs_small3(name);
 		let sys = IndSys::new(&format!("{name}/depth/default+small"), base, ks[..2].to_vec(), ks.clone(), oracle, false);
 		h.go(&sys, &Limits::depth(if thorough { 7 } else { 6 }).wall_secs(600), true);
 		tally!(sys);
@@ -124,7 +124,7 @@ fn main() {
 		// (6) hundreds of swing highs / lows on one side of the slow averages: a zigzag on a steady trend
 		// (consecutive-peak counters, pivot rules, position counters) with at most one deviation
 		{
-			let sys = IndSys::new(&format!("{name}/deviation/zigzag-trend"), indicator_configs(Some(name), false), vec![ks[1]], vec![ks[1], ks[2]], oracle, true).with_zigzag();
+			let sys = IndSys::new(&format!("{name}/deviation/zigzag-trend"), indicator_configs_small3(name), vec![ks[1]], vec![ks[1], ks[2]], oracle, true).with_zigzag();
 			h.go(&sys, &Limits::deviation(if thorough { 1 } else { 0 }, if thorough { 1200 } else { 640 }).wall_secs(600), true);
 			tally!(sys);
 		}
